@@ -685,6 +685,212 @@ Proof.
 Qed.
 
 (* ------------------------------------------------------------------ *)
+(* $rename: it writes the target and then removes the source, but records the
+   removal first; the two writes commute because neither path is a prefix of
+   the other and the source is reached through documents only *)
+
+Lemma split_go_nonempty s cur : split_go s cur <> [].
+Proof.
+  revert cur. induction s as [|c t IH]; intro cur; cbn [split_go]; [discriminate|].
+  destruct (Ascii.eqb c "."%char); [discriminate | apply IH].
+Qed.
+
+Lemma join_cons a l : l <> [] -> join_path (a :: l) = (a ++ "." ++ join_path l)%string.
+Proof. destruct l; [congruence | reflexivity]. Qed.
+
+Lemma split_go_join s : forall cur, join_path (split_go s cur) = (string_rev cur ++ s)%string.
+Proof.
+  induction s as [|c t IH]; intro cur; cbn [split_go].
+  - cbn [join_path]. rewrite sapp_nil_r. reflexivity.
+  - destruct (Ascii.eqb_spec c "."%char) as [->|_].
+    + rewrite join_cons by apply split_go_nonempty. rewrite IH. reflexivity.
+    + rewrite IH, string_rev_cons, sapp_assoc. reflexivity.
+Qed.
+
+Lemma join_split s : join_path (split_path s) = s.
+Proof. unfold split_path. rewrite split_go_join. reflexivity. Qed.
+
+Lemma join_app l1 : forall l3, l1 <> [] -> l3 <> [] ->
+  join_path (l1 ++ l3) = (join_path l1 ++ "." ++ join_path l3)%string.
+Proof.
+  induction l1 as [|a t IH]; intros l3 H1 H3; [congruence|].
+  destruct t as [|b t'].
+  - cbn [app]. rewrite join_cons by exact H3. reflexivity.
+  - change ((a :: b :: t') ++ l3) with (a :: ((b :: t') ++ l3)).
+    rewrite join_cons by discriminate. rewrite IH by (try discriminate; exact H3).
+    rewrite (join_cons a (b :: t')) by discriminate. rewrite !sapp_assoc. reflexivity.
+Qed.
+
+Lemma is_prefix_app p : forall q, is_prefix p q -> exists r, q = p ++ r.
+Proof.
+  induction p as [|s p' IH]; intros q H; [exists q; reflexivity|].
+  destruct q as [|t q']; [contradiction|]. destruct H as [-> H]. destruct (IH _ H) as [r ->]. exists r. reflexivity.
+Qed.
+
+Lemma has_prefix_app a b : has_prefix (a ++ b)%string a = true.
+Proof. induction a as [|c t IH]; [destruct b; reflexivity|]. cbn. rewrite Ascii.eqb_refl. exact IH. Qed.
+
+(* a path whose segments extend another path's segments extends it as a string *)
+Lemma prefix_segments_strings a b :
+  is_prefix (split_path a) (split_path b) -> a = b \/ has_prefix b (a ++ ".")%string = true.
+Proof.
+  intro H. destruct (is_prefix_app _ _ H) as [r E]. destruct r as [|x r'].
+  - left. rewrite app_nil_r in E. rewrite <- (join_split a), <- (join_split b), E. reflexivity.
+  - right. rewrite <- (join_split b), E, join_app by (try apply split_path_nonempty; discriminate).
+    rewrite join_split, <- sapp_assoc. apply has_prefix_app.
+Qed.
+
+Lemma remove_succeeds p : forall x pre,
+  is_missing (fst (Access.get x p false false)) = false -> exists o y, put x p VMissing pre = Some (o, y).
+Proof.
+  induction p as [|s r IH]; intros x pre G; [rewrite put_nil; eauto|].
+  destruct (Access.get x (s :: r) false false) as [v n] eqn:Gv. cbn [fst] in G.
+  pose proof (get_not_empty _ _ _ _ _ Gv G) as Hne.
+  destruct x; try (rewrite get_scalar in Gv by (intros; congruence); injection Gv as <- _; discriminate).
+  - rewrite get_doc, Hne in Gv. destruct (lookup d s) as [c|] eqn:L; [|injection Gv as <- _; discriminate].
+    destruct (IH c pre) as (o & y & P); [rewrite Gv; exact G|]. rewrite put_doc, Hne, L, P. eauto.
+  - rewrite get_arr, Hne in Gv. destruct (parse_index s) as [i|] eqn:PI; [|injection Gv as <- _; discriminate].
+    destruct (nth_z a i) as [c|] eqn:N; [|injection Gv as <- _; discriminate].
+    pose proof (nth_z_bounds _ _ _ N). destruct (IH c pre) as (o & y & P); [rewrite Gv; exact G|].
+    rewrite put_arr, Hne, (parse_index_atoi _ _ PI). destruct (Z.ltb_spec i 0); [lia|]. destruct (Z.ltb_spec i (len a)); [|lia].
+    rewrite N, P. eauto.
+Qed.
+
+Lemma replace_remove_commute s t a d : s <> t ->
+  replace_first t a (remove_first s d) = remove_first s (replace_first t a d).
+Proof.
+  intro H. induction d as [|[k z] r IH]; [reflexivity|]. cbn [remove_first replace_first].
+  destruct (String.eqb k s) eqn:Es; destruct (String.eqb k t) eqn:Et; cbn [remove_first replace_first]; rewrite ?Es, ?Et.
+  - apply String.eqb_eq in Es, Et. congruence.
+  - reflexivity.
+  - reflexivity.
+  - rewrite IH. reflexivity.
+Qed.
+
+Lemma replace_replace_commute s t a b d : s <> t ->
+  replace_first t a (replace_first s b d) = replace_first s b (replace_first t a d).
+Proof.
+  intro H. induction d as [|[k z] r IH]; [reflexivity|]. cbn [replace_first].
+  destruct (String.eqb k s) eqn:Es; destruct (String.eqb k t) eqn:Et; cbn [replace_first]; rewrite ?Es, ?Et.
+  - apply String.eqb_eq in Es, Et. congruence.
+  - reflexivity.
+  - reflexivity.
+  - rewrite IH. reflexivity.
+Qed.
+
+Lemma remove_first_app_present d : forall s x e, lookup d s = Some x -> remove_first s (d ++ [e]) = remove_first s d ++ [e].
+Proof.
+  induction d as [|[k z] r IH]; intros s x e L; [discriminate|]. cbn [lookup] in L. cbn [app remove_first].
+  destruct (String.eqb k s); [reflexivity|]. rewrite (IH _ _ _ L). reflexivity.
+Qed.
+
+Lemma replace_first_app_present d : forall s b x e, lookup d s = Some x -> replace_first s b (d ++ [e]) = replace_first s b d ++ [e].
+Proof.
+  induction d as [|[k z] r IH]; intros s b x e L; [discriminate|]. cbn [lookup] in L. cbn [app replace_first].
+  destruct (String.eqb k s); [reflexivity|]. rewrite (IH _ _ _ _ L). reflexivity.
+Qed.
+
+Lemma put_remove_commute p : forall q x v o1 x1 o3 y1,
+  Forall (fun s => parse_index s = None) p -> ~ is_prefix p q -> ~ is_prefix q p ->
+  is_missing v = false -> is_missing (fst (Access.get x p false false)) = false ->
+  put x q v false = Some (o1, x1) -> put x p VMissing false = Some (o3, y1) ->
+  exists o2 x2 o4, put x1 p VMissing false = Some (o2, x2) /\ put y1 q v false = Some (o4, x2).
+Proof.
+  induction p as [|s p' IH]; intros q x v o1 x1 o3 y1 F Npq Nqp Hv G Pq Pp; [exfalso; apply Npq; exact I|].
+  destruct q as [|t q']; [exfalso; apply Nqp; exact I|].
+  inversion F as [|? ? Fs Fp]; subst.
+  destruct (Access.get x (s :: p') false false) as [w n] eqn:Gw. cbn [fst] in G.
+  pose proof (get_not_empty _ _ _ _ _ Gw G) as Hnp.
+  pose proof (put_cons_not_empty _ _ _ _ _ _ Pq) as Hnq.
+  destruct x; try (rewrite get_scalar in Gw by (intros; congruence); injection Gw as <- _; discriminate).
+  2:{ rewrite get_arr, Hnp, Fs in Gw. injection Gw as <- _. discriminate. }
+  rewrite get_doc, Hnp in Gw. destruct (lookup d s) as [cs|] eqn:Ls; [|injection Gw as <- _; discriminate].
+  rewrite put_doc, Hnp, Ls in Pp. destruct (put cs p' VMissing false) as [[o3' cs']|] eqn:Ps; [|discriminate].
+  injection Pp as <- <-.
+  rewrite put_doc, Hnq in Pq.
+  destruct (String.eqb_spec s t) as [<-|Nst].
+  - (* same key: descend *)
+    rewrite Ls in Pq. destruct (put cs q' v false) as [[o1' c1]|] eqn:Pc; [|discriminate].
+    rewrite (put_result_not_missing _ _ _ _ _ _ Hv Pc) in Pq. injection Pq as <- <-.
+    assert (Np' : ~ is_prefix p' q') by (intro X; apply Npq; split; [reflexivity | exact X]).
+    assert (Nq' : ~ is_prefix q' p') by (intro X; apply Nqp; split; [reflexivity | exact X]).
+    destruct p' as [|k r]; [exfalso; apply Np'; exact I|].
+    assert (Gc : is_missing (fst (Access.get cs (k :: r) false false)) = false) by (rewrite Gw; exact G).
+    destruct (IH _ _ _ _ _ _ _ Fp Np' Nq' Hv Gc Pc Ps) as (o2 & c2 & o4 & Q1 & Q2).
+    pose proof (put_cons_result_not_missing _ _ _ _ _ _ _ Q1) as M2.
+    pose proof (put_cons_result_not_missing _ _ _ _ _ _ _ Ps) as M3.
+    exists o2, (VDoc (replace_first s c2 d)), o4. rewrite M3. split.
+    + rewrite put_doc, Hnp, (lookup_replace_first_eq _ _ _ _ Ls), Q1, M2, replace_first_twice. reflexivity.
+    + rewrite put_doc, Hnq, (lookup_replace_first_eq _ _ _ _ Ls), Q2, M2, replace_first_twice. reflexivity.
+  - (* different keys of one document *)
+    set (Ds := fun e : doc => if is_missing cs' then remove_first s e else replace_first s cs' e).
+    assert (LDs : lookup (Ds d) t = lookup d t).
+    { unfold Ds. destruct (is_missing cs'); [apply lookup_remove_first_neq | apply lookup_replace_first_neq]; exact Nst. }
+    change (VDoc (if is_missing cs' then remove_first s d else replace_first s cs' d)) with (VDoc (Ds d)).
+    destruct (lookup d t) as [ct|] eqn:Lt.
+    + destruct (put ct q' v false) as [[o1' ct']|] eqn:Pc; [|discriminate].
+      pose proof (put_result_not_missing _ _ _ _ _ _ Hv Pc) as Mt. rewrite Mt in Pq. injection Pq as <- <-.
+      exists o3', (VDoc (Ds (replace_first t ct' d))), o1'. split.
+      * rewrite put_doc, Hnp. rewrite (lookup_replace_first_neq _ _ _ _ (not_eq_sym Nst)), Ls, Ps. reflexivity.
+      * rewrite put_doc, Hnq, LDs, Pc, Mt. f_equal. f_equal. f_equal. unfold Ds. destruct (is_missing cs').
+        -- apply replace_remove_commute. exact Nst.
+        -- apply replace_replace_commute. exact Nst.
+    + rewrite Hv in Pq. destruct (put_new q' v) as [inner|] eqn:N; [|discriminate]. injection Pq as <- <-.
+      exists o3', (VDoc (Ds d ++ [(t, inner)])), VMissing. split.
+      * rewrite put_doc, Hnp. rewrite (lookup_app_other _ _ _ _ (not_eq_sym Nst)), Ls, Ps. f_equal. f_equal. f_equal.
+        unfold Ds. destruct (is_missing cs'); [eapply remove_first_app_present | eapply replace_first_app_present]; exact Ls.
+      * rewrite put_doc, Hnq, LDs, Hv, N. reflexivity.
+Qed.
+
+Lemma indexed_path_false p : indexed_path p = false -> Forall (fun s => parse_index s = None) p.
+Proof.
+  unfold indexed_path. induction p as [|s r IH]; intro H; [constructor|].
+  cbn [existsb] in H. apply orb_false_iff in H. destruct H as [H1 H2]. constructor; [|apply IH; exact H2].
+  destruct (parse_index s); [discriminate | reflexivity].
+Qed.
+
+Lemma rename_faithful v : faithful (fun s p => apply_rename s p v).
+Proof.
+  intros d ch ps d' ch' H. unfold apply_rename in H. cbn [fst snd] in H.
+  destruct v; try discriminate. rename s into np.
+  destruct (indexed_path (split_path ps) || indexed_path (split_path np)) eqn:Ix; [discriminate|].
+  apply orb_false_iff in Ix. destruct Ix as [Ix _].
+  destruct (String.eqb_spec ps np) as [|Neq]; [discriminate|].
+  destruct (has_prefix ps (np ++ ".") || has_prefix np (ps ++ ".")) eqn:Ov; [discriminate|].
+  apply orb_false_iff in Ov. destruct Ov as [Ov1 Ov2].
+  destruct (is_missing (Get d ps)) eqn:Gm; [injection H as <- <-; apply faithful_intro_keep|].
+  destruct (Put d np (Get d ps) false) as [[o1 d1]| | | |] eqn:P; cbn [bind] in H; try discriminate.
+  destruct (Unset d1 ps) as [o2 d2] eqn:U.
+  destruct (record ch ps VMissing) as [ch1| | | |] eqn:R1; cbn [bind] in H; try discriminate.
+  destruct (record ch1 np (Get d ps)) as [ch2| | | |] eqn:R2; cbn [bind] in H; try discriminate.
+  injection H as <- <-.
+  exists [(ps, VMissing); (np, Get d ps)]. split.
+  { rewrite (record_keys _ _ _ _ R2), (record_keys _ _ _ _ R1), <- app_assoc. reflexivity. }
+  intros _.
+  assert (Npq : ~ is_prefix (split_path ps) (split_path np)).
+  { intro X. destruct (prefix_segments_strings _ _ X) as [E|E]; [congruence | rewrite E in Ov2; discriminate]. }
+  assert (Nqp : ~ is_prefix (split_path np) (split_path ps)).
+  { intro X. destruct (prefix_segments_strings _ _ X) as [E|E]; [congruence | rewrite E in Ov1; discriminate]. }
+  destruct (put_path_ok _ _ _ _ _ _ P) as [_ Pq].
+  assert (G : is_missing (fst (Access.get (VDoc d) (split_path ps) false false)) = false) by exact Gm.
+  destruct (remove_succeeds _ _ false G) as (o3 & y1 & Pp).
+  destruct (put_remove_commute _ _ _ _ _ _ _ _ (indexed_path_false _ Ix) Npq Nqp Gm G Pq Pp) as (o2' & x2 & o4 & Q1 & Q2).
+  pose proof (split_path_nonempty ps) as NEp. destruct (split_path ps) as [|k r] eqn:Sp; [congruence|].
+  pose proof (split_path_nonempty np) as NEq. destruct (split_path np) as [|k' r'] eqn:Sq; [congruence|].
+  (* both intermediate results are documents *)
+  assert (Y : exists e1, y1 = VDoc e1).
+  { pose proof (put_cons_not_empty _ _ _ _ _ _ Pp) as Hne. rewrite put_doc, Hne in Pp.
+    destruct (lookup d k) as [c0|]; [|discriminate]. destruct (put c0 r VMissing false) as [[? ?]|]; [|discriminate].
+    injection Pp as _ <-. eauto. }
+  destruct Y as [e1 ->].
+  destruct (put_doc_result _ _ _ _ _ _ _ Q2 Gm) as [e2 ->].
+  (* the model's Unset on d1 is x2, i.e. d2 = e2 *)
+  unfold Unset, unset_path in U. rewrite Sp, Q1 in U. injection U as _ <-.
+  cbn [replay is_missing]. unfold Unset, unset_path. rewrite Sp, Pp. cbn [snd].
+  rewrite Gm. unfold Put, put_path. rewrite Sq, Gm, Q2. reflexivity.
+Qed.
+
+(* ------------------------------------------------------------------ *)
 (* composition: positional expansion, pairs, operators *)
 
 Lemma faithful_compose d ch d1 delta1 (k : st -> res st) d' ch' :
@@ -732,22 +938,22 @@ Proof.
         eapply faithful_compose; [exact R1 | exact H |]. intros dd cc dd' cc' Hk. exact (IHt _ _ _ _ _ Hk).
 Qed.
 
-(* every operator of the table except $rename is faithful (arguments without
-   the Missing marker) *)
+(* every operator of the table is faithful (arguments without the Missing marker) *)
 Lemma table_faithful m up now k g op :
-  assoc k (update_ops m up now) = Some (g, op) -> k <> "$rename"%string ->
+  assoc k (update_ops m up now) = Some (g, op) ->
   forall v, has_missing v = false -> faithful (fun s p => op s p v).
 Proof.
-  intros A Hk v Hv. unfold update_ops in A. cbn [assoc] in A.
+  intros A v Hv. unfold update_ops in A. cbn [assoc] in A.
   repeat match type of A with
   | (if String.eqb ?a k then _ else _) = _ =>
       destruct (String.eqb_spec a k) as [E|_];
-      [injection A as _ <-; subst k; try congruence|]
+      [injection A as _ <-; subst k|]
   end; try discriminate.
   all: try (apply keep_or_write_faithful;
             first [apply kow_set | apply kow_set_on_insert | apply kow_arith | apply kow_minmax | apply kow_current_date
                   | apply kow_add_to_set | apply kow_pull | apply kow_pull_all | apply kow_bit]).
   - apply unset_faithful.
+  - apply rename_faithful.
   - apply push_faithful. exact Hv.
   - apply pop_faithful.
 Qed.
@@ -770,25 +976,22 @@ Proof.
     eapply faithful_compose; [exact R1 | exact H |]. intros dd cc dd' cc' Hk. exact (IH Ht _ _ _ _ Hk).
 Qed.
 
-Definition no_rename (u : doc) : Prop := Forall (fun kv => fst kv <> "$rename"%string) u.
-
 Lemma apply_ops_faithful m up now fs u :
-  no_rename u -> has_missing (VDoc u) = false ->
+  has_missing (VDoc u) = false ->
   forall d ch d' ch', apply_ops m up now fs u (d, ch) = Ok (d', ch') ->
   exists delta, ch' = ch ++ delta /\ (small_changes delta -> replay delta d = Ok d').
 Proof.
-  induction u as [|[k v] t IH]; intros Hr Hm d ch d' ch' H.
+  induction u as [|[k v] t IH]; intros Hm d ch d' ch' H.
   - cbn in H. injection H as <- <-. apply faithful_intro_keep.
-  - inversion Hr as [|? ? Hk Hrt]; subst. cbn [fst] in Hk.
-    assert (Hv : has_missing v = false) by (eapply has_missing_field; [exact Hm | left; reflexivity]).
+  - assert (Hv : has_missing v = false) by (eapply has_missing_field; [exact Hm | left; reflexivity]).
     assert (Ht : has_missing (VDoc t) = false).
     { rewrite has_missing_doc in *. cbn [existsb] in Hm. apply orb_false_iff in Hm. tauto. }
     cbn [apply_ops] in H. destruct (starts_dollar k); [|discriminate].
     destruct (assoc k (update_ops m up now)) as [[g op]|] eqn:A; [|discriminate].
     destruct v; try discriminate.
     destruct (apply_pairs m fs op d0 (d, ch)) as [[d1 ch1]| | | |] eqn:E; cbn [bind] in H; try discriminate.
-    destruct (apply_pairs_faithful m fs op d0 (table_faithful _ _ _ _ _ _ A Hk) Hv _ _ _ _ E) as (delta1 & -> & R1).
-    eapply faithful_compose; [exact R1 | exact H |]. intros dd cc dd' cc' Hk'. exact (IH Hrt Ht _ _ _ _ Hk').
+    destruct (apply_pairs_faithful m fs op d0 (table_faithful _ _ _ _ _ _ A) Hv _ _ _ _ E) as (delta1 & -> & R1).
+    eapply faithful_compose; [exact R1 | exact H |]. intros dd cc dd' cc' Hk'. exact (IH Ht _ _ _ _ Hk').
 Qed.
 
 (* ------------------------------------------------------------------ *)
@@ -796,19 +999,19 @@ Qed.
 
 (* Apply's Changed, replayed in the order of recording (a permutation of the
    path-sorted list that Apply returns) on the original document, gives the
-   resulting document.  Partial: updates without $rename (its two records are
-   made in the opposite order of its two writes; commuting them is not proved),
-   values without the Missing marker, and recorded index segments within the
-   model's array-extension limit. *)
+   resulting document — for every update that Apply accepts (all 15 operators,
+   positional paths included).  Side conditions: values without the Missing
+   marker (true of BSON), and recorded index segments within the model's
+   array-extension limit. *)
 Theorem apply_changes_faithful m d q u up fs now d' sorted :
-  no_rename u -> has_missing (VDoc u) = false ->
+  has_missing (VDoc u) = false ->
   apply_with m d q u up fs now = Ok (d', sorted) ->
   exists ch, Permutation ch sorted /\ sorted = sort_changes ch /\
              (small_changes ch -> replay ch d = Ok d').
 Proof.
-  intros Hr Hm H. unfold apply_with in H. destruct u as [|kv t]; [discriminate|].
+  intros Hm H. unfold apply_with in H. destruct u as [|kv t]; [discriminate|].
   destruct (apply_ops m up now fs (kv :: t) (d, [])) as [[d1 ch]| | | |] eqn:E; cbn [bind] in H; try discriminate.
-  injection H as <- <-. destruct (apply_ops_faithful _ _ _ _ _ Hr Hm _ _ _ _ E) as (delta & -> & R).
+  injection H as <- <-. destruct (apply_ops_faithful _ _ _ _ _ Hm _ _ _ _ E) as (delta & -> & R).
   exists delta. split; [apply stable_sort_perm|]. split; [reflexivity | exact R].
 Qed.
 
@@ -822,7 +1025,6 @@ Theorem push_changes_faithful m d q pairs up fs now d' sorted :
 Proof.
   intros Hm H.
   destruct (apply_changes_faithful m d q [("$push"%string, VDoc pairs)] up fs now d' sorted) as (ch & P & _ & R); auto.
-  - constructor; [discriminate | constructor].
   - rewrite has_missing_doc. cbn [existsb snd]. rewrite Hm. reflexivity.
   - eauto.
 Qed.
